@@ -1,4 +1,5 @@
 import PydapModel.Dap4
+import PydapModel.Dmr
 import PydapModel.Generated.Tables
 import PydapModel.Sexp
 import PydapModel.Slice
